@@ -1,37 +1,37 @@
 (* C03 — operator algebra mirrors matrix algebra.
    expr = Leaf | Add | Sub | Mul | Scale | Neg | Pow | AdjW | TranspW | ConjE |
-          Cols | VStack | HStack | BlockDiag   (Block = VStack of HStacks).
-   Not in the model (oracle-checked only by the harness): Kronecker,
-   _RealImagLinearOperator. *)
+          Cols | VStack | HStack | BlockDiag | Kron | RealImag (Block = VStack of HStacks).
+   RealImag (toreal/toimag) is only R-linear: [wf] (C-linear level) excludes
+   it and the C03_real_* theorems ([rwf], real inputs) cover it. *)
 From Coq Require Import QArith Qcanon.
-From PV Require Import MatAlg Expr QcInst GaussQc.
+From PV Require Import MatAlg Expr QcInst GaussQc CheckC03.
 
 (* forward mode = the dense matrix of the expression, every depth and mix *)
-Theorem C03_ap_fwd_dense : forall (S : StarRing) (e : expr S) x, wf S e -> length x = cols S e ->
-  ap S Fwd e x = mv S (dense S e) x.
+Theorem C03_ap_fwd_dense : forall (S : StarRing) (RI : ReIm S) (e : expr S) x, wf S e -> length x = cols S e ->
+  ap S RI Fwd e x = mv S (dense S RI e) x.
 Proof. exact ap_fwd_dense. Qed.
 Print Assumptions C03_ap_fwd_dense.
 
 (* adjoint mode = conjugate transpose of the dense matrix *)
-Theorem C03_ap_adj_dense : forall (S : StarRing) (e : expr S) y, wf S e -> length y = rows S e ->
-  ap S Adj e y = mv S (ctranspose S (cols S e) (dense S e)) y.
+Theorem C03_ap_adj_dense : forall (S : StarRing) (RI : ReIm S) (e : expr S) y, wf S e -> length y = rows S e ->
+  ap S RI Adj e y = mv S (ctranspose S (cols S e) (dense S RI e)) y.
 Proof. exact ap_adj_dense. Qed.
 Print Assumptions C03_ap_adj_dense.
 
 (* matmat / rmatmat = column-wise matvec / rmatvec *)
-Theorem C03_apmat_columns : forall (S : StarRing) (e : expr S) d X, apmat S d e X = map (ap S d e) X.
+Theorem C03_apmat_columns : forall (S : StarRing) (RI : ReIm S) (e : expr S) d X, apmat S RI d e X = map (ap S RI d e) X.
 Proof. exact apmat_columns. Qed.
 Print Assumptions C03_apmat_columns.
 
 (* every expression passes the dot test *)
-Theorem C03_dot_test : forall (S : StarRing) (e : expr S) x y, wf S e -> length x = cols S e -> length y = rows S e ->
-  dot S (ap S Fwd e x) y = dot S x (ap S Adj e y).
+Theorem C03_dot_test : forall (S : StarRing) (RI : ReIm S) (e : expr S) x y, wf S e -> length x = cols S e -> length y = rows S e ->
+  dot S (ap S RI Fwd e x) y = dot S x (ap S RI Adj e y).
 Proof. exact ap_dot_test. Qed.
 Print Assumptions C03_dot_test.
 
 (* .H : acts as the adjoint (all expressions), has the swapped shape, is
    again well-formed, its dense matrix is the conjugate transpose *)
-Theorem C03_H_acts_as_adjoint : forall (S : StarRing) (e : expr S) d x, ap S d (H S e) x = ap S (flip d) e x.
+Theorem C03_H_acts_as_adjoint : forall (S : StarRing) (RI : ReIm S) (e : expr S) d x, ap S RI d (H S e) x = ap S RI (flip d) e x.
 Proof. exact ap_H. Qed.
 Print Assumptions C03_H_acts_as_adjoint.
 Theorem C03_H_shape : forall (S : StarRing) (e : expr S), shape S (H S e) = (snd (shape S e), fst (shape S e)).
@@ -40,27 +40,27 @@ Print Assumptions C03_H_shape.
 Theorem C03_H_wf : forall (S : StarRing) (e : expr S), wf S e -> wf S (H S e).
 Proof. exact H_wf. Qed.
 Print Assumptions C03_H_wf.
-Theorem C03_H_dense : forall (S : StarRing) (e : expr S), wf S e -> dense S (H S e) = ctranspose S (cols S e) (dense S e).
+Theorem C03_H_dense : forall (S : StarRing) (RI : ReIm S) (e : expr S), wf S e -> dense S RI (H S e) = ctranspose S (cols S e) (dense S RI e).
 Proof. exact H_dense. Qed.
 Print Assumptions C03_H_dense.
-Theorem C03_T_dense : forall (S : StarRing) (e : expr S), dense S (T S e) = transpose S (cols S e) (dense S e).
+Theorem C03_T_dense : forall (S : StarRing) (RI : ReIm S) (e : expr S), dense S RI (T S e) = transpose S (cols S e) (dense S RI e).
 Proof. exact T_dense. Qed.
 Print Assumptions C03_T_dense.
-Theorem C03_conj_dense : forall (S : StarRing) (e : expr S), dense S (Cj S e) = mconj S (dense S e).
+Theorem C03_conj_dense : forall (S : StarRing) (RI : ReIm S) (e : expr S), dense S RI (Cj S e) = mconj S (dense S RI e).
 Proof. exact Cj_dense. Qed.
 Print Assumptions C03_conj_dense.
 
 (* involutions *)
-Theorem C03_H_involutive : forall (S : StarRing) (e : expr S) d x, ap S d (H S (H S e)) x = ap S d e x.
+Theorem C03_H_involutive : forall (S : StarRing) (RI : ReIm S) (e : expr S) d x, ap S RI d (H S (H S e)) x = ap S RI d e x.
 Proof. exact H_involutive. Qed.
 Print Assumptions C03_H_involutive.
-Theorem C03_T_involutive : forall (S : StarRing) (e : expr S) d x, ap S d (T S (T S e)) x = ap S d e x.
+Theorem C03_T_involutive : forall (S : StarRing) (RI : ReIm S) (e : expr S) d x, ap S RI d (T S (T S e)) x = ap S RI d e x.
 Proof. exact T_involutive. Qed.
 Print Assumptions C03_T_involutive.
-Theorem C03_H_H_dense : forall (S : StarRing) (e : expr S), wf S e -> dense S (H S (H S e)) = dense S e.
+Theorem C03_H_H_dense : forall (S : StarRing) (RI : ReIm S) (e : expr S), wf S e -> dense S RI (H S (H S e)) = dense S RI e.
 Proof. exact H_H_dense. Qed.
 Print Assumptions C03_H_H_dense.
-Theorem C03_T_T_dense : forall (S : StarRing) (e : expr S), wf S e -> dense S (T S (T S e)) = dense S e.
+Theorem C03_T_T_dense : forall (S : StarRing) (RI : ReIm S) (e : expr S), wf S e -> dense S RI (T S (T S e)) = dense S RI e.
 Proof. exact T_T_dense. Qed.
 Print Assumptions C03_T_T_dense.
 
@@ -79,6 +79,69 @@ Example C03_example_wf : wf GS exE /\ wf GS (H GS exE).
 Proof. split; [| apply H_wf]; cbn; repeat split; repeat constructor; cbn; auto; try lia;
   try (intros [Q|Q]; try discriminate; try destruct Q; fail). Qed.
 Example C03_example_nontrivial :
-  ap GS Fwd exE [g 1 0; g 0 1] = mv GS (dense GS exE) [g 1 0; g 0 1] /\
-  ap GS Fwd exE [g 1 0; g 0 1] <> zeros GS 6.
+  ap GS GRI Fwd exE [g 1 0; g 0 1] = mv GS (dense GS GRI exE) [g 1 0; g 0 1] /\
+  ap GS GRI Fwd exE [g 1 0; g 0 1] <> zeros GS 6.
 Proof. split; [vm_compute; reflexivity | vm_compute; discriminate]. Qed.
+
+(* ---- Kronecker: the dense matrix of Kron is the Kronecker product and the
+   two-pass code computes it (instance of C03_ap_fwd_dense / C03_ap_adj_dense;
+   the underlying identity (A (x) B) vec(X) = vec(A X B^T): *)
+Theorem C03_kron_vec : forall (R : CRing) n1 n2 (A B : list (list R)) x,
+  wfM R n1 A -> wfM R n2 B -> length x = (n1 * n2)%nat ->
+  mv R (kron R A B) x = kron_ap R n1 n2 (length B) (length A) (mv R A) (mv R B) x.
+Proof. exact mv_kron. Qed.
+Print Assumptions C03_kron_vec.
+Theorem C03_kron_transpose : forall (R : CRing) n1 n2 (A B : list (list R)) y,
+  wfM R n1 A -> wfM R n2 B -> length y = (length A * length B)%nat ->
+  mvT R (n1 * n2) (kron R A B) y = mv R (kron R (transpose R n1 A) (transpose R n2 B)) y.
+Proof. exact mvT_kron. Qed.
+Print Assumptions C03_kron_transpose.
+Definition exK : expr GS := Kron (Add exC (Scale i_ exC)) (AdjW exA).
+Example C03_example_kron : wf GS exK /\ shape GS exK = (6%nat, 4%nat) /\
+  ap GS GRI Adj exK [g 1 0; g 0 1; g 2 0; g 0 0; g 1 1; g 3 0] =
+  mv GS (ctranspose GS 4 (dense GS GRI exK)) [g 1 0; g 0 1; g 2 0; g 0 0; g 1 1; g 3 0] /\
+  ap GS GRI Adj exK [g 1 0; g 0 1; g 2 0; g 0 0; g 1 1; g 3 0] <> zeros GS 4.
+Proof. split; [cbn; repeat split; repeat constructor | split; [reflexivity | split; [vm_compute; reflexivity | vm_compute; discriminate]]]. Qed.
+
+(* ---- toreal / toimag (R-linear level): real-coefficient trees whose
+   toreal()/toimag() nodes wrap arbitrary complex C-linear subtrees act on
+   REAL vectors like the dense matrix (Re / Im of the wrapped dense matrix),
+   in both modes, return real vectors and pass the real dot test ---- *)
+Theorem C03_real_fwd_dense : forall (S : StarRing) (RI : ReIm S) (e : expr S) x,
+  rwf S e -> vreal S x -> length x = cols S e -> ap S RI Fwd e x = mv S (dense S RI e) x.
+Proof. exact rap_fwd_dense. Qed.
+Print Assumptions C03_real_fwd_dense.
+Theorem C03_real_adj_dense : forall (S : StarRing) (RI : ReIm S) (e : expr S) y,
+  rwf S e -> vreal S y -> length y = rows S e ->
+  ap S RI Adj e y = mv S (ctranspose S (cols S e) (dense S RI e)) y.
+Proof. exact rap_adj_dense. Qed.
+Print Assumptions C03_real_adj_dense.
+Theorem C03_real_output_real : forall (S : StarRing) (RI : ReIm S) (e : expr S) d x,
+  rwf S e -> vreal S x -> length x = inlen S d e -> vreal S (ap S RI d e x).
+Proof. exact rap_real. Qed.
+Print Assumptions C03_real_output_real.
+Theorem C03_real_dot_test : forall (S : StarRing) (RI : ReIm S) (e : expr S) x y,
+  rwf S e -> vreal S x -> vreal S y -> length x = cols S e -> length y = rows S e ->
+  dotu S (ap S RI Fwd e x) y = dotu S x (ap S RI Adj e y).
+Proof. exact rap_dot_test. Qed.
+Print Assumptions C03_real_dot_test.
+(* any forw/adj flags, at the root of a C-linear tree, any (complex) input *)
+Theorem C03_realimag_fwd : forall (S : StarRing) (RI : ReIm S) fw aj rl (e : expr S) x, wf S e -> length x = cols S e ->
+  ap S RI Fwd (RealImag fw aj rl e) x =
+  (if fw then (if rl then vre S RI else vim S RI) else (fun y => y)) (mv S (dense S RI e) x).
+Proof. exact realimag_fwd. Qed.
+Print Assumptions C03_realimag_fwd.
+Theorem C03_realimag_adj : forall (S : StarRing) (RI : ReIm S) fw aj rl (e : expr S) y, wf S e -> length y = rows S e ->
+  ap S RI Adj (RealImag fw aj rl e) y =
+  (if aj then (if rl then vre S RI else (fun v => vneg S (vim S RI v))) else (fun v => v))
+    (mv S (ctranspose S (cols S e) (dense S RI e)) y).
+Proof. exact realimag_adj. Qed.
+Print Assumptions C03_realimag_adj.
+(* non-vacuity: toimag of a complex product inside a real sum, squared *)
+Definition exR : expr GS :=
+  Pow (Add (RealImag true true false (Mul (Scale i_ exA) (AdjW exB))) (Scale (g 2 0) (RealImag true true true exC))) 2.
+Example C03_example_real : rwf GS exR /\ vreal GS [g 1 0; g (-2) 0] /\
+  ap GS GRI Adj exR [g 1 0; g (-2) 0] = mv GS (ctranspose GS 2 (dense GS GRI exR)) [g 1 0; g (-2) 0] /\
+  ap GS GRI Adj exR [g 1 0; g (-2) 0] <> zeros GS 2.
+Proof. split; [| split; [reflexivity | split; [vm_compute; reflexivity | vm_compute; discriminate]]].
+  cbn. repeat split; auto; try (left; cbn; repeat split; repeat constructor); reflexivity. Qed.
